@@ -682,6 +682,13 @@ pub fn run(args: &Args) -> i32 {
             cfgs.push(("pm1".to_string(), 30, b2));
         }
     }
+    // B1 one above a maximal prime power (q^k + 1: 7^2, 3^4, 2^7, 11^2): the prime-power loops of the stage 1 of
+    // each method ("while pow * p < B1") decide by a single unit there
+    for b1 in [50u64, 82, 129, 122] {
+        for m in ["pp1", "pm1", "ecm", "ecm128"] {
+            cfgs.push((m.to_string(), b1, 660.0));
+        }
+    }
     for (m, b1, b2) in hardwired() {
         if b2 <= maxb2 as f64 {
             cfgs.push((m.to_string(), b1, b2));
